@@ -738,6 +738,60 @@ static void random_run(const char *cmpname, unsigned long seed, unsigned int uni
     free(m.v);
 }
 
+/* ---- part 2b: deep trees -------------------------------------------------- */
+
+/* n keys inserted in key order with nothing in between leave one chain as deep as the set; then the operations that have to
+ * reach its far end: find / lower / remove of the first and of the last keys, replacement of an equal key, and again after each. */
+static void fill_run(const char *cmpname, unsigned int n, int descending)
+{
+    struct universe *u = !strcmp(cmpname, "int") ? &U_int : !strcmp(cmpname, "voidp") ? &U_voidp : &U_str;
+    struct set *s = set_alloc(u->cmp, u == &U_str ? str_elem_cleanup : elem_cleanup);
+    struct model m;
+    unsigned int kk, round;
+    char ctx[96];
+
+    memset(&m, 0, sizeof(m));
+    rng_state = 0x9E3779B97F4A7C15ull * (n + 1);
+    keypool = malloc(n * sizeof(keypool[0]));
+    keypool_n = n;
+    for (kk = 0; kk < n; ++kk)
+        keypool[kk] = u == &U_int ? (long long)kk * 3 - n : u == &U_voidp ? 0x1000ll + (long long)kk * 8 : (long long)kk * 2;
+    for (round = 0; round < 3; ++round) {
+        for (kk = 0; kk < n; ++kk) {
+            snprintf(ctx, sizeof(ctx), "fill %s n=%u %s round %u insert#%u", cmpname, n, descending ? "desc" : "asc", round, kk);
+            do_insert(s, &m, u, keypool[descending ? n - 1 - kk : kk], kk & 255, ctx);
+        }
+        if (set_size(s) != m.n)
+            viol("size", "%s: set_size=%u model=%u", ctx, set_size(s), m.n);
+        snprintf(ctx, sizeof(ctx), "fill %s n=%u %s round %u far end", cmpname, n, descending ? "desc" : "asc", round);
+        /* the far end of the chain is where the first keys went */
+        {
+            unsigned int far = descending ? n - 1 : 0, near = descending ? 0 : n - 1;
+            switch (round) {
+            case 0: do_find(s, &m, u, keypool[far], 0, ctx); break;
+            case 1: do_remove(s, &m, u, keypool[far], 0, 0, ctx); break;
+            default: do_insert(s, &m, u, keypool[far], 77, ctx); break;   /* equal key: replaces */
+            }
+            if (set_size(s) != m.n)
+                viol("size", "%s: set_size=%u model=%u", ctx, set_size(s), m.n);
+            audit(s, &m, ctx);
+            do_lower(s, &m, u, keypool[far], 0, ctx);
+            do_lower(s, &m, u, keypool[near], 0, ctx);
+            do_find(s, &m, u, keypool[n / 2], 0, ctx);
+            do_remove(s, &m, u, keypool[near], 0, 0, ctx);
+            do_find(s, &m, u, keypool[far], 0, ctx);
+            audit(s, &m, ctx);
+        }
+        keep_removed = 0;
+        do_clear(s, &m, u, 0, "fill-clear");
+        if (n_viol > 20)
+            break;
+    }
+    free(s);
+    free(keypool);
+    free(m.v);
+}
+
 /* ---- part 3: comparator laws ---------------------------------------------- */
 
 static int sgn(int x) { return (x > 0) - (x < 0); }
@@ -809,6 +863,8 @@ int main(int argc, char *argv[])
         explore(n);
     } else if (argc >= 6 && !strcmp(argv[1], "random")) {
         random_run(argv[2], strtoul(argv[3], NULL, 10), (unsigned)atoi(argv[4]), strtoul(argv[5], NULL, 10));
+    } else if (argc >= 5 && !strcmp(argv[1], "fill")) {
+        fill_run(argv[2], (unsigned)atoi(argv[3]), atoi(argv[4]));
     } else if (argc >= 2 && !strcmp(argv[1], "laws")) {
         laws();
     } else {
